@@ -6,7 +6,7 @@ for d in seeded/*/; do
   name=$(basename $d)
   ids=$(python3 -c "import json;print(' '.join(json.load(open('$d/meta.json'))['detected_by'][:1]))")
   [ -z "$ids" ] && continue
-  out=$(./tools/try_patch.sh $d/patch.diff $ids 2>&1)
+  out=$(./tools/try_patch_iso.sh $d/patch.diff $ids 2>&1)
   if echo "$out" | grep -q "^== .* exit=1"; then echo "ok   $name ($ids)"; else echo "LOST $name ($ids)"; echo "$out" | tail -3; fail=1; fi
 done
 exit $fail
